@@ -148,9 +148,8 @@ GhostInv ==
     \A k \in Keypers : \A e \in EonSet :
         IF ks[k].ptr[e].row
         THEN /\ gh[k].gp[e] = ks[k].ptr[e].value
-             /\ IF ks[k].ptr[e].age = Null THEN gh[k].ga[e] = Null
-                ELSE gh[k].ga[e] # Null /\ Max2(gh[k].glo[e], 0) <= ks[k].ptr[e].age /\ ks[k].ptr[e].age <= gh[k].ghi[e]
-        ELSE gh[k].gp[e] \in {None, 0}
+             /\ \E w \in gh[k].W[e] : w.a = ks[k].ptr[e].age
+        ELSE \E w \in gh[k].W[e] : w.a = NoRowAge
 
 EmitInv == (~Emit) \/ PrintT(<<"B", hist>>)
 View == <<env, ks, gh, cnt, tags, last>>
